@@ -18,6 +18,13 @@ var unqPool = []string{"b", "1..2", "/a/b", "é", "a+b", "+", "x:y", "true", "*/
 var fillers = []string{" ", " ", " ", "\n", "\t", "  ", "\n    ", "\r\n", " // c\n", "/* c */", " /* a\n * b */ ", "", "", "\n\t", " //\n", "/**/", "/***/", "/* é\t*/"}
 
 func quotedPiece(r *rand.Rand, pattern bool) (string, string) {
+	if r.Intn(12) == 0 {
+		// a quoted string whose content is `+`: an ordinary string, not the concatenation operator
+		if r.Intn(2) == 0 {
+			return "\"+\"", "dq"
+		}
+		return "'+'", "sq"
+	}
 	if r.Intn(3) == 0 {
 		// single-quoted: anything but '
 		var sb strings.Builder
@@ -144,7 +151,22 @@ func Render(r *rand.Rand, toks []GTok) (string, []int) {
 // Mutate damages a text: token deletion/duplication/insertion, byte deletion/insertion, truncation, invalid UTF-8.
 func Mutate(r *rand.Rand, toks []GTok) string {
 	t := append([]GTok{}, toks...)
-	switch r.Intn(8) {
+	switch r.Intn(9) {
+	case 3: // quote a concatenation operator: `"a" "+" "b"` is a syntax error, not a concatenation
+		var cand []int
+		for i := range t {
+			if t[i].Kind == "plus" {
+				cand = append(cand, i)
+			}
+		}
+		if len(cand) > 0 {
+			i := cand[r.Intn(len(cand))]
+			if r.Intn(2) == 0 {
+				t[i] = GTok{Text: "\"+\"", Kind: "dq"}
+			} else {
+				t[i] = GTok{Text: "'+'", Kind: "sq"}
+			}
+		}
 	case 0: // delete a token
 		if len(t) > 0 {
 			i := r.Intn(len(t))
@@ -158,7 +180,8 @@ func Mutate(r *rand.Rand, toks []GTok) string {
 	case 2: // insert a token
 		i := r.Intn(len(t) + 1)
 		ins := []GTok{{Text: ";", Kind: "semi"}, {Text: "{", Kind: "lbrace"}, {Text: "}", Kind: "rbrace"}, {Text: "+", Kind: "plus"},
-			{Text: "\"q\\x\"", Kind: "dq"}, {Text: "'s'", Kind: "sq"}, {Text: "zz", Kind: "unq"}}[r.Intn(7)]
+			{Text: "\"q\\x\"", Kind: "dq"}, {Text: "'s'", Kind: "sq"}, {Text: "zz", Kind: "unq"},
+			{Text: "\"+\"", Kind: "dq"}, {Text: "'+'", Kind: "sq"}}[r.Intn(9)]
 		t = append(t[:i], append([]GTok{ins}, t[i:]...)...)
 	}
 	text, _ := Render(r, t)
